@@ -144,3 +144,7 @@ package balance
 //@   loop 1 invariant len(header.cells) == 1 + (rn.drawCommsColumn ? 1 : 0) + $i
 //@   loop 2 invariant 0 <= $i && $i <= len($range) && tlen() == old(tlen()) + 1 && widthOK(rn, tbl) && allComplete(tbl) && (forall i int :: {$range[i]} 0 <= i && i < len($range) ==> sortedTree($range[i]))
 //@   loop 3 invariant 0 <= $i && $i <= len($range) && tlen() == old(tlen()) + 2 && widthOK(rn, tbl) && allComplete(tbl) && (forall i int :: {$range[i]} 0 <= i && i < len($range) ==> sortedTree($range[i]))
+//
+//@ func NewReport
+//@   modifies nothing
+//@   ensures result != nil && fresh(result) && result.AL != nil && result.EIE != nil && result.AL != result.EIE && result.Registry == reg && result.partition == part
